@@ -177,6 +177,48 @@ def runKeep (m : Mode) (sideLimit : Nat) (rc : Recv α) : List α → List (MOp 
 
 end Recv
 
+/-! ### the eleven public sort methods -/
+
+/-- the public methods of `SortOps` (src/sort.rs) -/
+inductive SortMethod
+  | sort_by_row | sort_unstable_by_row | sort_by_row_key | sort_unstable_by_row_key | sort_row_ord | sort_unstable_row_ord
+  | sort_by_col | sort_unstable_by_col | sort_by_col_key | sort_unstable_by_col_key | sort_col_ord
+deriving DecidableEq, Repr
+
+/-- the method orders a row (and permutes columns) -/
+def SortMethod.isRow : SortMethod → Bool
+  | .sort_by_row | .sort_unstable_by_row | .sort_by_row_key | .sort_unstable_by_row_key | .sort_row_ord | .sort_unstable_row_ord => true
+  | _ => false
+
+/-- the method uses the stable side sort -/
+def SortMethod.isStable : SortMethod → Bool
+  | .sort_by_row | .sort_by_row_key | .sort_row_ord | .sort_by_col | .sort_by_col_key | .sort_col_ord => true
+  | _ => false
+
+namespace Recv
+
+/-- the call `rc.<method>(k, …)`: which transcribed body runs.  `le` = the caller's comparator, or the order of the caller's keys
+    (`key = id`, `leK = le` in the `*_key` wrappers), or `T: Ord`; `p` = what an unstable side sort returned (ignored by the stable
+    methods). -/
+def runSort (m : Mode) (sideLimit : Nat) (rc : Recv α) (buf : List α) (meth : SortMethod) (le : α → α → Bool) (p : List Nat)
+    (k : Nat) : Res (List α) := do
+  let rc := rc.setBuf buf
+  let a ← rc.acc m
+  match meth with
+  | .sort_by_row => a.sortByRow (rc.indexRow m) buf sideLimit le k
+  | .sort_unstable_by_row => a.sortUnstableByRow (rc.indexRow m) buf sideLimit p k
+  | .sort_by_row_key => a.sortByRowKey (rc.indexRow m) buf sideLimit id le k
+  | .sort_unstable_by_row_key => a.sortUnstableByRowKey (rc.indexRow m) buf sideLimit p k
+  | .sort_row_ord => a.sortRowOrd (rc.indexRow m) buf sideLimit le k
+  | .sort_unstable_row_ord => a.sortUnstableRowOrd (rc.indexRow m) buf sideLimit p k
+  | .sort_by_col => a.sortByCol (rc.col m) (rc.swapRows m) buf sideLimit le k
+  | .sort_unstable_by_col => a.sortUnstableByCol (rc.col m) (rc.swapRows m) buf sideLimit p k
+  | .sort_by_col_key => a.sortByColKey (rc.col m) (rc.swapRows m) buf sideLimit id le k
+  | .sort_unstable_by_col_key => a.sortUnstableByColKey (rc.col m) (rc.swapRows m) buf sideLimit p k
+  | .sort_col_ord => a.sortColOrd (rc.col m) (rc.swapRows m) buf sideLimit le k
+
+end Recv
+
 /-! ### borrowing: how a receiver is obtained from another one -/
 
 /-- one borrowing step of the public API -/
